@@ -378,6 +378,7 @@ def enumerated(rng):
             out.append(Site("malformed-number", c % lit, (s, s + len(lit.encode())), note=lit))
     sigs = ["*", "a, *", "a=1, *", "*, **k", "a, /, *", "a, *, **k", "*,", "a, b, *, **kw"]
     out += signature_violations()
+    out += call_argument_violations()
     for sg in sigs:
         for tpl in ("def f(%s): pass\n", "async def f(%s): pass\n", "x = lambda %s: 0\n", "class C:\n    def m(%s): pass\n"):
             i = tpl.index("%s")
@@ -387,6 +388,45 @@ def enumerated(rng):
     for pat in ("y as _", "_ as _", "[a, b] as _", "(1 | 2) as _", "C(x as _)", "{'k': v as _}", "[x as _, y]"):
         txt = "match s:\n    case %s: pass\n" % pat
         out.append(Site("as-underscore", txt, (18, 18 + len(pat) + 1), note=pat))
+    return out
+
+
+def call_argument_violations():
+    """Exhaustive small scope: every argument list of up to 5 arguments over {positional, *iterable, name=value, **mapping}
+    (and a repeated name) whose first offence is one of the three call-argument rules, in a call, a nested call, a
+    decorator and a class header."""
+    import itertools
+    out = []
+    forms = ["f(%s)\n", "x = g(h(%s), 1)\n", "@d(%s)\ndef f(): pass\n", "class K(%s): pass\n"]
+    for n in range(2, 6):
+        for seq in itertools.product("pskd", repeat=n):
+            rule = None
+            seen_k = seen_d = False
+            for c in seq:
+                if c == "p" and (seen_k or seen_d):
+                    rule = "positional-after-keyword"
+                elif c == "s" and seen_d:
+                    rule = "unpack-after-double-star"
+                if rule:
+                    break
+                seen_k |= c == "k"
+                seen_d |= c == "d"
+            if rule is None:
+                continue
+            parts = []
+            for i, c in enumerate(seq):
+                parts.append({"p": "p%d", "s": "*s%d", "k": "k%d=%d", "d": "**d%d"}[c] % ((i, i) if c == "k" else (i,)))
+            sig = ", ".join(parts)
+            for tpl in forms:
+                i = tpl.index("%s")
+                out.append(Site(rule, tpl % sig, (bi(tpl, i) - 1, bi(tpl, i) + len(sig) + 2), note=sig))
+    # a repeated keyword separated from its first use by every other kind of argument
+    for mid in ("", "k1=1, ", "*s, ", "**d, ", "k1=1, *s, **d, "):
+        for pre in ("", "p, ", "*s0, "):
+            sig = pre + "k=0, " + mid + "k=2"
+            for tpl in forms:
+                i = tpl.index("%s")
+                out.append(Site("repeated-keyword", tpl % sig, (bi(tpl, i) - 1, bi(tpl, i) + len(sig) + 2), extra="k", note=sig))
     return out
 
 
